@@ -35,3 +35,7 @@ EQUIVALENT = [
     ('read mode explicit', M, "            cols = self._read_array(self._find_path('pc_feature_ind.npy'), mmap_mode='r')", "            cols = self._read_array(self._find_path('pc_feature_ind.npy'), mmap_mode='c')"),
     ('rate local', M, "            samples = self._read_array(path)\n            times = samples / self.sample_rate\n        else:", "            samples = self._read_array(path)\n            times = samples / self.sample_rate\n            assert times.ndim == 1\n        else:"),
 ]
+BREAKING.append(('cluster file created as a hard link', 'phylib/io/model.py', "            shutil.copy(tmp_path, path)", "            os.link(str(tmp_path), str(path))", ['C04.F1']))
+BREAKING.append(('cluster file created as a symlink', 'phylib/io/model.py', "            shutil.copy(tmp_path, path)", "            Path(path).symlink_to(tmp_path)", ['C04.F1']))
+BREAKING.append(('scrub through nan_to_num (inf -> huge finite)', 'phylib/io/model.py', "                out[errors] = 0\n", "                out = np.nan_to_num(out)\n", ['C04.D1']))
+EQUIVALENT.append(('scrub through nan_to_num with explicit zeros', 'phylib/io/model.py', "                out[errors] = 0\n", "                out = np.nan_to_num(out, nan=0, posinf=0, neginf=0)\n"))
